@@ -131,6 +131,9 @@ pub fn build_arg(a: &Value) -> Arg {
         "possible" => {
             let pvs: Vec<clap::builder::PossibleValue> = vp["pvs"].as_array().unwrap().iter().enumerate().map(|(i, n)| {
                 let mut pv = clap::builder::PossibleValue::new(s_of(n)).hide(vp["pv_hide"][i].as_bool().unwrap_or(false));
+                for al in vp["pv_aliases"][i].as_array().map(|a| a.to_vec()).unwrap_or_default() {
+                    pv = pv.alias(s_of(&al));
+                }
                 let h = bytes_of(&vp["pv_help"][i]);
                 if !h.is_empty() {
                     pv = pv.help(String::from_utf8_lossy(&h).into_owned());
